@@ -264,6 +264,16 @@ func runC02(c *Ctx) {
 			s := base58Ref(b)
 			net := 1 + (ver+ln)%len(nets)
 			decode(c, s, net)
+			if ln == 20 && (ver == 0 || ver == 5 || ver == 111 || ver == 196 || ver%32 == 0) {
+				// a digit replaced by a code point whose low byte is that digit (rune/byte confusion)
+				rs := []rune(s)
+				p := r.Intn(len(rs))
+				for _, off := range []rune{0x100, 0x200, 0x2100} {
+					t := append([]rune{}, rs...)
+					t[p] = off + rs[p]
+					decode(c, string(t), net)
+				}
+			}
 			if ln == 20 && ver%16 == 0 { // one corrupted checksum
 				bb := append([]byte{}, b...)
 				bb[len(bb)-1] ^= 1
